@@ -2,7 +2,7 @@
    (Same exact-arithmetic caveat as C10 for the f64 evaluation.) *)
 From Coq Require Import Lia ZArith.
 From ChitchatModel Require Import Base SMap Ids Bytes Params NodeState Stream DeltaWire Message Cluster
-  FD Chitchat SMap_lemmas Cluster_lemmas FD_lemmas Inv Compute_lemmas NodeInv.
+  FD Chitchat SMap_lemmas NodeState_lemmas Cluster_lemmas FD_lemmas Inv Compute_lemmas NodeInv HbMono.
 
 (* a replayed, duplicated, equal or lower heartbeat for a member whose stored heartbeat is
    non-zero — from any relay, any number of times, in any order — leaves the WHOLE node unchanged:
@@ -67,3 +67,23 @@ Proof.
   change (Forall (fun v => 1000000000 <= v <= 1000000000)%Z [1000000000; 1000000000]%Z).
   constructor; [lia|]. constructor; [lia|]. constructor.
 Qed.
+
+(* "lower" is relative to everything the node has observed, not only to what it happens to store:
+   the stored heartbeat of every member a node holds is never lowered by a message — stale,
+   duplicated, relayed, or carrying a delta that RESETS the member's copy.  (On the pinned tree a
+   reset set the stored heartbeat back to 0, after which lower, replayed heartbeats were accepted
+   and counted as fresh: finding F-7, repaired in /repo by a `fix:` commit; this theorem is about
+   the repaired code and did not hold before.)  Together with C11_stale_heartbeat_is_noop: a digest
+   value at or below ANY value observed since the node learnt the member changes nothing. *)
+Theorem C11_stored_heartbeat_never_lowered : forall zc now n m ord n' reply evs,
+  msg_wf m -> process_message zc now n m ord = Ok (n', reply, evs) ->
+  forall X c, nm_get X (cs_nodes (nd_cs n)) = Some c ->
+    exists c', nm_get X (cs_nodes (nd_cs n')) = Some c' /\ (c_hb c <= c_hb c')%N.
+Proof. intros zc now n m ord n' reply evs Hwf Hrun. exact (process_message_hb zc now n m ord n' reply evs Hwf Hrun). Qed.
+Print Assumptions C11_stored_heartbeat_never_lowered.
+
+(* a node delta — refused, incremental or resetting — does not touch the heartbeat *)
+Theorem C11_deltas_keep_the_heartbeat : forall now c nd c1 st ev,
+  nd_bounded nd -> apply_delta now c nd = Ok (c1, st, ev) -> c_hb c1 = c_hb c.
+Proof. exact apply_delta_hb. Qed.
+Print Assumptions C11_deltas_keep_the_heartbeat.
